@@ -78,17 +78,27 @@ let rec run_lazy enc kind q (st : int st) (accepted : int -> bool) (handled : in
             | None -> None
             | Some st2 -> run_lazy enc kind q st2 accepted (if do_handle then handled + 1 else handled) rest))
 
-let aggr_case ?(dest = "file") ?(old = "x-") fmt q g per mode delay obs : string * string * bool =
+(* json payload "ids:<csv>;bad=<n>" -> ids, bad *)
+let lines_of_json_prefix (payload : string) : (int list * int) option =
+  if String.length payload >= 4 && String.sub payload 0 4 = "ids:" then
+    (match String.split_on_char ';' (String.sub payload 4 (String.length payload - 4)) with
+     | [ids; b] when String.length b > 4 && String.sub b 0 4 = "bad=" ->
+         Some ((if ids = "" then [] else ids_of_csv ids), int_of_string (String.sub b 4 (String.length b - 4)))
+     | _ -> None)
+  else None
+
+let aggr_case ?(dest = "file") ?(old = "x-") ?(fail = -1) ?(bufsize = 0) fmt q g per mode delay obs : string * string * bool =
   (* the destination: a file the aggregator creates, or a stream (stdout / stderr) holding [oldb] *)
   let d = (match fmt, dest with
            | ("phout" | "phoutid"), "stdout" -> phout_dest []
            | ("phout" | "phoutid"), _ -> phout_dest (bytes_of_string "out")
            | _, "stdout" -> sink_dest SinkStdout
            | _, "stderr" -> sink_dest SinkStderr
+           | _, "buffer" -> sink_dest SinkBuffer
            | _, _ -> sink_dest (SinkFile (bytes_of_string "out"))) in
   let oldb = if dest <> "file" && String.length old >= 1 && old.[0] = 'x'
              then bytes_of_hex (String.sub old 1 (String.length old - 1)) else [] in
-  let kind = if fmt = "phout" || fmt = "phoutid" then Blocking else Dropping in
+  let kind = if fmt = "phout" || fmt = "phoutid" || fmt = "log" then Blocking else Dropping in
   let withid = (fmt <> "phout") in
   let enc (id : int) : n list option =
     if fmt = "json" then Some (bytes_of_string (string_of_int id ^ "\n"))
@@ -149,6 +159,52 @@ let aggr_case ?(dest = "file") ?(old = "x-") fmt q g per mode delay obs : string
             | Some st -> if st.ph = Done && st.closed && st.buf = [] && st.queue = [] then render_pred st order else "model:not-done"))
     end in
   ignore delay;
+  if dest = "ro" then begin
+    (* a destination that cannot be opened: building / running the aggregator fails, nothing is written *)
+    let empty = (opayload = "-" || opayload = "hex:-" || opayload = "ids:;bad=0") in
+    ((if oerr = "openerr" && empty then obs else "openerr"),
+     (if oerr = "openerr" && empty then "ok" else "BAD:unopenable-destination-not-reported err=" ^ oerr), true)
+  end else if fail >= 0 && mode = "pre" then begin
+    (* the destination accepts [fail] bytes, then fails every write (Model/Destination.v failing) *)
+    let order = List.concat (List.init per (fun j -> List.init g (fun i -> (i lsl id_shift) lor j))) in
+    match (match run enc kind (nat_of_int q) init (List.map (fun id -> Report (owner (n_of_int id), id)) order) with
+           | Some st0 -> finish st0 | None -> None) with
+    | None -> ("model:cannot-finish", "BAD:model", false)
+    | Some st ->
+        (* When must Run end with the write error? The property does not speak about failing destinations;
+           the check asks for the error only where the failing write certainly happened while a sample was
+           handled: the harness' tab encoders (every flush error is returned), and phout when more bytes
+           than one write buffer (BufferSizeOrDefault: at least 4 kB) lie beyond the failure point - what
+           only the final, deferred flush hits is not required to be reported. *)
+        let must_report_bytes (len_e : int) =
+          (fmt = "tab" || fmt = "tabc")
+          || (kind = Blocking && bufsize <> 0 && len_e > fail + max bufsize 4096) in
+        if fmt = "json" then begin
+          (* the model's json encoding is a stand-in: judge the ids of the complete lines *)
+          let acc = List.map n_of_int st.acc_log in
+          (match lines_of_json_prefix opayload with
+           | None -> (pred, v, total >= 2)
+           | Some (ids, bad) ->
+               if List.length ids = List.length acc && bad = 0 then (pred, v, total >= 2)   (* the failure was never reached *)
+               else
+                 let okp = prefix_b (List.map n_of_int ids) acc && bad <= 1 in
+                 let v' = if not okp then "BAD:failing-destination-holds-more-than-a-prefix"
+                          else if oerr = "ioerr" || oerr = "nil" || field_after "dropped:" oerr <> None then "ok"
+                          else "BAD:failing-destination-run-ended-with-" ^ oerr in
+                 ((if v' = "ok" then obs else "ioerr"), v', true))
+        end else begin
+          let e = st.sink in
+          if List.length e <= fail then (pred, v, total >= 2)
+          else
+            let want = failing (nat_of_int fail) e in
+            let got = if String.length opayload >= 4 && String.sub opayload 0 4 = "hex:"
+                      then Some (bytes_of_hex (String.sub opayload 4 (String.length opayload - 4))) else None in
+            let v' = if got <> Some want then "BAD:failing-destination-content"
+                     else if oerr = "ioerr" || (oerr = "nil" && not (must_report_bytes (List.length e))) then "ok"
+                     else "BAD:write-failure-not-reported err=" ^ oerr in
+            ((if v' = "ok" then obs else "ioerr " ^ csv_of_ids order ^ " hex:" ^ hex_of_bytes want), v', true)
+        end
+  end else
   (pred, v, total >= 2)
 
 (* ---- engine cases ---- *)
@@ -242,6 +298,8 @@ let predict (c : string) (obs : string) : string * string * bool =
   | ["aggr"; fmt; q; g; per; mode; delay; _; _] | ["aggr"; fmt; q; g; per; mode; delay; _; _; _]
   | ["aggr"; fmt; q; g; per; mode; delay; _; _; _; _] ->
       aggr_case fmt (int_of_string q) (int_of_string g) (int_of_string per) mode (int_of_string delay) obs
+  | ["aggr"; fmt; q; g; per; mode; delay; bufsize; _; _; old; dest; fail] ->
+      aggr_case ~dest ~old ~fail:(int_of_string fail) ~bufsize:(int_of_string bufsize) fmt (int_of_string q) (int_of_string g) (int_of_string per) mode (int_of_string delay) obs
   | ["aggr"; fmt; q; g; per; mode; delay; _; _; _; old; dest] ->
       aggr_case ~dest ~old fmt (int_of_string q) (int_of_string g) (int_of_string per) mode (int_of_string delay) obs
   | ["engine"; fmt; instances; ammo; _; _] -> engine_case fmt (int_of_string instances) (int_of_string ammo) false obs
